@@ -221,6 +221,39 @@ def authenticated_bytes(chk):
     chk.floor('authenticated-text cases', n, 6)
 
 
+def reset_history_free(chk):
+    """An AEAD context is keyed once and then reset for every message: what reset() computes (J0, the OMAC states, B0 and the tag mask)
+    must not depend on what the previous message left in the context.  sa/resetflow.py: on every path through br_gcm_reset,
+    br_eax_reset and br_ccm_reset (callees that receive the context are followed in the caller's state) no field that a
+    message-processing function may write is read -- loaded, copied from, or handed by pointer to a callee such as GHASH or the
+    CBC-MAC -- before reset has written it.  br_eax_reset_pre_aad / _post_aad are not claimed: their cleanliness depends on
+    `len != 0` in the caller implying the buffer copy in do_cbcmac_chunk, a relation between a caller branch and a callee branch that
+    this analysis does not track."""
+    from .. import resetflow
+    R = 'aead-reset-history-free'
+    n = 0
+    for src, st, inits, entry, must_mut in (('src/aead/gcm.c', 'br_gcm_context', ('br_gcm_init',), 'br_gcm_reset', ('y', 'jc', 'count_aad', 'count_ctr', 'buf')),
+                                            ('src/aead/eax.c', 'br_eax_context', ('br_eax_init',), 'br_eax_reset', ('cbcmac', 'buf', 'ptr', 'ctr', 'nonce')),
+                                            ('src/aead/ccm.c', 'br_ccm_context', ('br_ccm_init',), 'br_ccm_reset', ('cbcmac', 'buf', 'ptr', 'ctr', 'tagmask'))):
+        RF = resetflow.ResetFlow(src, st, inits)
+        miss = [f for f in must_mut if f not in RF.mutable]
+        if miss:
+            raise AnalysisBroken('%s: fields %s are no longer recognised as written by message processing' % (st, miss))
+        ex = RF.run(entry)
+        if RF.reads < 3:
+            raise AnalysisBroken('%s: only %d context reads seen' % (entry, RF.reads))
+        n += 1
+        inst = '%s: no message-mutable field of %s (%s) is read before the reset has written it' % (entry, st, ', '.join(sorted(RF.mutable)))
+        if not ex:
+            chk.ok(R, inst, src, '%d reads of the context examined' % RF.reads)
+        for f, F, i, path in ex:
+            chk.violation(R, inst, F.where(i), 'field `%s` is %s here (call path %s) with whatever the previous message left in it: the second message processed '
+                          'with this context gets a different %s than a fresh context would' % (
+                              f, 'passed to %s' % (i.get('callee') or 'an indirect call') if i['op'] == 'call' else 'loaded', ' > '.join(path),
+                              'counter block / tag' if 'gcm' in src else 'MAC state'), key='%s %s %s' % (R, entry, f))
+    chk.floor('aead resets analysed', n, 3)
+
+
 def mac_restart_sets_fill(chk):
     """EAX keeps (cbcmac, buf, ptr): running CBC-MAC value, pending bytes, their count.  Whenever a new OMAC computation is started by
     overwriting ctx->cbcmac (zeroes, or a saved pre-processed state), the fill count belongs to the *previous* computation: ctx->ptr must be
@@ -351,6 +384,7 @@ def run(tier):
     chunk_completion(chk)
     authenticated_bytes(chk)
     mac_restart_sets_fill(chk)
+    reset_history_free(chk)
     # CCM and EAX run on the CTR+CBC-MAC primitives: their counter carry chains decide the ciphertext (shared with C12)
     from .c12 import counter_carry_chains, empty_chunk_is_identity, x86ni_counter_lanes, ghash_pclmul_tail
     ghash_pclmul_tail(chk)
